@@ -160,7 +160,8 @@ macro_rules! impl_set {
             }
             fn h_hint_unpack(y: &[u8]) -> Res<Vec<P>> { vhk::hint_bit_unpack::<$k>($omega, y).map(|h| h.to_vec()) }
             fn h_hint_pack(h: &[P], ctest: bool) -> Vec<u8> {
-                let mut y = vec![0u8; $omega + $k];
+                // pre-filled: the encoder must write every output byte itself
+                let mut y = vec![0xA5u8; $omega + $k];
                 if ctest {
                     vhk::hint_bit_pack::<true, $k>($omega, &arr(h), &mut y);
                 } else {
@@ -189,7 +190,7 @@ macro_rules! impl_set {
             }
             fn h_w1_encode(w1: &[P]) -> Vec<u8> {
                 let bits = vhk::bit_length((8_380_417 - 1) / (2 * $g2) - 1);
-                let mut out = vec![0u8; 32 * $k * bits];
+                let mut out = vec![0x5Au8; 32 * $k * bits];
                 vhk::w1_encode::<$k>($g2, &arr(w1), &mut out);
                 out
             }
